@@ -4,7 +4,9 @@ four radixes, negative decimals, labels, `$variables`, expression-macro calls
 `f( a , b )`, `selector("sig")` / `topic("sig")`, parenthesised sequences, with
 blanks wherever the grammar allows.  Statements: plain instructions, `pushN
 <expr>`, `%push(<expr>)`, label definitions, instruction-macro invocations
-`%name( args )`, `%import("p")` / `%include("p")` / `%include_hex("p")`,
+`%name( args )` (any name but the exact builtin words `push`, `import`, `include`,
+`include_hex` and the names starting with `macro` / `def`: `reservedName`),
+`%import("p")` / `%include("p")` / `%include_hex("p")`,
 instruction-macro definitions `%macro name(params) … %end` and expression-macro
 definitions `%def name(params) … %end`, each with a legal layout.  `render` gives
 the text, `node` the node `parse_asm` is expected to build.
@@ -176,10 +178,19 @@ def Decl.WF (d : Decl) : Prop :=
   IsFnName d.name ∧ ExprText.IsBlanks d.g1 ∧
   ∀ x ∈ d.params, ExprText.IsBlanks x.1 ∧ IsParam x.2.1 ∧ ExprText.IsBlanks x.2.2
 
-/-- names that would be lexed by an earlier alternative of `stmt` when written after `%` -/
-def reservedPrefix (n : List Nat) : Bool :=
-  [[109, 97, 99, 114, 111], [100, 101, 102], [112, 117, 115, 104], [105, 109, 112, 111, 114, 116],
-   [105, 110, 99, 108, 117, 100, 101], [101, 110, 100]].any (fun p => p.isPrefixOf n)
+/-- names an instruction-macro invocation `%name gap ( args )` cannot carry, because an earlier alternative of `stmt` /
+`instruction_macro_stmt` takes the text: EXACTLY `push`, `import`, `include`, `include_hex` (then `%name (` is the builtin;
+blanks before `(` are allowed there, the four rules being non-atomic), and every name that STARTS with `macro` or `def`
+(`%macrox()` is `%macro` + declaration `x()` when a matching `%end` follows, `%deffoo()` likewise with `%def`: that depends
+on the rest of the text, so the whole prefix is excluded).  A name that merely has `push` / `import` / `include` /
+`include_hex` as a proper prefix (`push_all`, `importx`, `include_lib`, `include_hexx`) is not reserved: the literal
+matches, the implicit skip eats nothing (a name character follows), and `arguments` fails because that character is not
+`(`.  Names starting with `end` (`end`, `endx`, `end_loop`) are not reserved either, inside a macro body included: the
+body loop tries a statement before the closing `"%end"`. -/
+def reservedName (n : List Nat) : Bool :=
+  n == [112, 117, 115, 104] || n == [105, 109, 112, 111, 114, 116] || n == [105, 110, 99, 108, 117, 100, 101] ||
+  n == [105, 110, 99, 108, 117, 100, 101, 95, 104, 101, 120] ||
+  [109, 97, 99, 114, 111].isPrefixOf n || [100, 101, 102].isPrefixOf n
 
 /-- a statement that may stand inside an instruction-macro body -/
 inductive BStmt
@@ -202,7 +213,7 @@ def BStmt.WF : BStmt → Prop
       ∀ fuel v, evalClosed fuel s.expr = some v → v < (2 : Int) ^ (8 * n)
   | .apush l s r => ExprText.IsBlanks l ∧ s.WF ∧ ExprText.IsBlanks r
   | .label name gap => IsLabel name ∧ ExprText.IsBlanks gap
-  | .invoke name gap args => IsFnName name ∧ reservedPrefix name = false ∧ ExprText.IsBlanks gap ∧ args.WF
+  | .invoke name gap args => IsFnName name ∧ reservedName name = false ∧ ExprText.IsBlanks gap ∧ args.WF
 
 def BStmt.aop : BStmt → AOp
   | .ins i => .op i.op (if i.imm.isEmpty then none else some (.num (Int.ofNat (Listing.beNat i.imm))))
